@@ -198,3 +198,15 @@ Print Assumptions C01_src_pin_mod_load_driver.
 Print Assumptions C01_src_pin_linux_copy_file_bytes.
 Print Assumptions C01_src_pin_linux_copy_file_offset.
 Print Assumptions C01_src_pin_linux_try_copy_file_range.
+
+From XcpProofs Require Import XDrivers.
+(* ---- main(), translated (the update loop and the join): an Error update anywhere in the stream makes the exit status
+   non-zero whatever the driver thread returns — the only report of a failed block job of parblock ---- *)
+Theorem C01_src_error_update_reaches_exit : forall s1 e s2 handle,
+  x_main_collect (s1 ++ XuError e :: s2) handle <> None.
+Proof. exact x_error_update_reaches_exit. Qed.
+Theorem C01_src_exit_status : forall stats handle,
+  x_main_collect stats handle = None <-> has_error stats = false /\ handle = None.
+Proof. exact x_main_collect_ok_iff. Qed.
+Print Assumptions C01_src_error_update_reaches_exit.
+Print Assumptions C01_src_exit_status.
